@@ -242,6 +242,10 @@ def search(ctx, disagreements):
     n = 8000 if ctx.thorough() else 2000
     for _ in range(n):
         cs = [(c, a) for c, a in rand_cmds(rng) if len(a) == pathgen.ARITY[c.lower()]]
+        if cs and rng.random() < 0.15:
+            # the same command twice in a row draws nothing new, but it is a command of the sequence
+            i = rng.randrange(len(cs))
+            cs = cs[:i + 1] + [cs[i]] * rng.choice([1, 1, 2]) + cs[i + 1:]
         o, back = common.outcome_of(lambda: list(SVGPath.from_commands(iter(cs))))
         if o != "ok":
             found.append({"kind": "roundtrip", "input": cs, "detail": "from_commands/parse raised %s" % o})
